@@ -5,7 +5,7 @@ prompt gives a sub-agent ONLY the property text, its worktree, the rules of
 the experiment and one-line descriptions of the ideas already used for that
 property in earlier rounds (seeded/<ID>-*/meta.json 'breaks').
 
-usage: tools/mkseedprompts.py /tmp/seed5
+usage: tools/mkseedprompts.py /tmp/seed5 [C01,C07,...]
 """
 import glob, json, os, subprocess, sys
 V = os.path.dirname(os.path.dirname(os.path.abspath(__file__)))
@@ -18,7 +18,10 @@ props = {}
 for l in open(os.path.join(V, 'properties.jsonl')):
     p = json.loads(l)
     props[p['id']] = p
+only = set(sys.argv[2].split(',')) if len(sys.argv) > 2 else None
 for pid, p in sorted(props.items()):
+    if only and pid not in only:
+        continue
     subprocess.run(['git', '-C', '/repo', 'worktree', 'add', '-q', '--detach',
                     '%s/%s' % (dest, pid), 'HEAD'], check=True)
     os.makedirs('%s/out-%s' % (dest, pid), exist_ok=True)
